@@ -165,6 +165,31 @@ def _signature(pr):
     return sig, atoms, order
 
 
+def _order_conflict(base, other, skip=()):
+    """Do two templates evaluate some pair of holes, that can both run in one execution, in opposite
+    orders?  (Holes in mutually exclusive branches of one test have no order.)"""
+    from .common import exclusive
+
+    def firsts(pr):
+        out = {}
+        for e in path_events(pr)[0]:
+            if e.kind in ("X", "S", "raw", "param"):
+                k = f"{e.kind}:{e.path}"
+                if k not in skip:
+                    out.setdefault(k, e)
+        return out
+
+    fb, fo = firsts(base), firsts(other)
+    keys = [k for k in fb if k in fo]
+    for i, x in enumerate(keys):
+        for y in keys[i + 1:]:
+            if exclusive(fb[x], fb[y]) and exclusive(fo[x], fo[y]):
+                continue
+            if (fb[x].pos < fb[y].pos) != (fo[x].pos < fo[y].pos):
+                return True
+    return False
+
+
 def _option_keys(pr):
     return [k for k in pr.assign if "configs." in k]
 
@@ -216,7 +241,7 @@ def rule_r2(ctx):
                 oorder = [x for x in oorder if x not in empties]
                 if set(bsig) != set(osig):
                     diff = f"holes differ: {sorted(set(bsig) ^ set(osig))}"
-                elif border != oorder:
+                elif border != oorder and _order_conflict(base, other, empties):
                     diff = f"holes are evaluated in a different order: {border} vs {oorder}"
                 else:
                     for k in bsig:
